@@ -108,7 +108,19 @@ SigLen(b) == IF b = << >> THEN 0
 MeanIsExact(vals) ==
   LET s == SSum(vals) IN Low(s[2], Log2(Len(vals))) = << >> /\ SigLen(s[2]) <= 24
 
-BlockMean(c, p) == MeanExact(c.kind, MeanContrib(c, p))
+\* INTEGER data with a NON-INTEGER outside value (--outside-value is a float):
+\* the case carries data and outside value in units of 2^-u (field "u", absent =
+\* 0) while the result elements are plain integers; the mean is then
+\* sum / (count * 2^u), rounded half-to-even to an integer.
+UBits(c) == IF "u" \in DOMAIN c THEN c.u ELSE 0
+MeanExactU(kind, vals, u) ==
+  IF u = 0 \/ kind # "int" THEN MeanExact(kind, vals)
+  ELSE LET s == SSum(vals)
+           k == Log2(Len(vals)) + u
+           q == ShiftR(s[2], k)
+           frac == Reverse(Pad(Low(s[2], k), k))
+       IN SCanon(<<s[1], RoundMagHE(q, frac)>>)
+BlockMean(c, p) == MeanExactU(c.kind, MeanContrib(c, p), UBits(c))
 Majority(c, p) ==
   LET vals == ClippedContrib(c, p)
       cnt(i) == Cardinality({j \in 1..Len(vals) : vals[j] = vals[i]})
@@ -122,7 +134,15 @@ Expected(c, p) ==
   ELSE IF c.method = "majority" THEN Majority(c, p)
   ELSE Stride(c, p)
 InRange(c, p, out) ==
-  LET vals == Contrib(c, p) IN SLeq(SMin(vals), out) /\ SLeq(out, SMax(vals))
+  LET vals == Contrib(c, p)
+      u == UBits(c)
+      o == IF u = 0 \/ out[1] = 2 THEN out ELSE <<out[1], ShiftL(out[2], u)>>
+      \* u > 0 (non-integer outside value on integer data): the rounded mean of 8 and
+      \* 3 x 7.25 is 7 < 7.25, so the range is taken in values of the data type:
+      \* floor(min) <= out <= ceil(max), i.e. out*2^u + (2^u - 1) >= min, out*2^u - (2^u - 1) <= max
+      slack == <<0, [i \in 1..u |-> 1]>>
+  IN IF u = 0 \/ out[1] = 2 THEN SLeq(SMin(vals), o) /\ SLeq(o, SMax(vals))
+     ELSE SLeq(SMin(vals), SAdd(o, slack)) /\ SLeq(SAdd(o, <<1, slack[2]>>), SMax(vals))
 
 StatClause(c) == IF c.method = "average" THEN "oracle:BlockMean"
                  ELSE IF c.method = "majority" THEN "oracle:Majority" ELSE "oracle:Stride"
